@@ -57,7 +57,9 @@ pub struct Interpreter<TStdlib: Stdlib, TStdIn: Input, TStdOut: Printer, TLpt1: 
     return_address_stack: Vec<usize>,
 
     /// Holds addresses to RETURN to after a GOSUB
-    go_sub_address_stack: Vec<usize>,
+    /// The addresses of the pending GOSUB instructions, each with the depth
+    /// of the call stack at the time (a RETURN only matches a GOSUB of its own activation).
+    go_sub_address_stack: Vec<(usize, usize)>,
 
     /// Holds the current call stack
     stacktrace: Vec<Position>,
@@ -497,20 +499,26 @@ impl<TStdlib: Stdlib, TStdIn: Input, TStdOut: Printer, TLpt1: Printer>
                 ctx.opt_next_index = Some(address);
             }
             Instruction::GoSub(address_or_label) => {
-                self.go_sub_address_stack.push(i);
+                self.go_sub_address_stack
+                    .push((i, self.return_address_stack.len()));
                 ctx.opt_next_index = Some(address_or_label.address());
             }
-            Instruction::Return(opt_address) => match self.go_sub_address_stack.pop() {
-                Some(address) => {
-                    ctx.opt_next_index = Some(match opt_address {
-                        Some(address_or_label) => address_or_label.address(),
-                        _ => address + 1,
-                    });
+            Instruction::Return(opt_address) => {
+                let call_depth = self.return_address_stack.len();
+                match self.go_sub_address_stack.last() {
+                    Some((address, depth)) if *depth == call_depth => {
+                        ctx.opt_next_index = Some(match opt_address {
+                            Some(address_or_label) => address_or_label.address(),
+                            _ => *address + 1,
+                        });
+                        self.go_sub_address_stack.pop();
+                    }
+                    // no GOSUB is pending, or only GOSUBs of the callers are
+                    _ => {
+                        return Err(RuntimeError::ReturnWithoutGoSub).with_err_at(&pos);
+                    }
                 }
-                _ => {
-                    return Err(RuntimeError::ReturnWithoutGoSub).with_err_at(&pos);
-                }
-            },
+            }
             Instruction::Resume => {
                 let last_error_address = self.take_last_error_address().with_err_at(&pos)?;
                 ctx.opt_next_index = Some(
